@@ -85,6 +85,10 @@ def step (s : St) (line : String) : IO St := do
     let s := { s with ops := s.ops + 1 }
     let some bs := hexBytes? hx | mismatch s "bad hex"
     let impl := resOf ws
+    -- monitor: the implementation's OWN encoding of a store must decode again
+    let s ← if s.lastEnc == some hx && impl != "ok" then
+        monitor s "roundtrip" s!"NewRevocationStoreFromBytes refuses ({impl}) the {bs.length}-byte encoding that Encode has just produced (lenBuckets={bs.headD 0})"
+      else pure s
     match Store.decode bs with
     | .ok st =>
       let s ← if impl == "ok" then pure s else mismatch s s!"load: model=ok impl={impl}"
